@@ -581,6 +581,24 @@ class Ctx:
             d.conv('+-+\n')
             d.warmed = True
 
+    def anchor(self):
+        """(dx, dy): where inside its cell the tree under test anchors a text element at the default scale,
+        measured once per worker on a one-letter document (2, 12 on the pinned tree). The properties only say
+        "inside the cell of its first character"; the checks that map text elements back to cells use this."""
+        a = self.extra.get('_anchor')
+        if a is None:
+            a = (F(2), F(12))
+            try:
+                r = self.driver().conv('\n\n  a\n')
+                if r.ok:
+                    ts = [e for e, _ in Scene(r.out).flat() if e[0] == 'text' and e[4] == 'a']
+                    if len(ts) == 1:
+                        a = (ts[0][2] - 16, ts[0][3] - 32)
+            except Malformed:
+                pass
+            self.extra['_anchor'] = a
+        return a
+
     def conv(self, inp, **kw):
         d = self.driver()
         self.calls += 1
